@@ -228,6 +228,7 @@ def run(ctx):
     tfams = '{"Baked", "Types", "Aggr", "Str", "Raw"}'
     all_ops = cm.strset(['ModIns', 'ModUpd', 'Flush', 'Commit', 'NewSession', 'Rollback'])
     ops3 = cm.strset(['ModIns', 'Flush', 'Commit'])
+    ops4 = cm.strset(['ModIns', 'Flush', 'Commit', 'NewSession'])
 
     # (i) Transparent holds on the repaired design (source-tree / extractor caches modelled as steps)
     chk = dict(NThreads=1, MemoSteps='TRUE', ParamStyles=styles, MaxExec=4, MaxMod=2)
@@ -253,7 +254,7 @@ def run(ctx):
     # (iii) every history of the bounded alphabet, with the as-is model's prediction
     exports = []
     if quick:
-        exports.append(dict(Fams=qfams, SessOps=ops3, MinLen=4, MaxLen=4))
+        exports.append(dict(Fams=qfams, SessOps=ops4, MinLen=4, MaxLen=4))
     else:
         exports.append(dict(Fams=qfams, SessOps=ops3, MinLen=5, MaxLen=5))
         exports.append(dict(Fams=tfams, SessOps=all_ops, MinLen=4, MaxLen=4))
